@@ -181,3 +181,46 @@ mod tests {
         assert!(result.is_ok());
     }
 }
+
+#[cfg(brc20_prog_verif)]
+impl ConfigDatabase {
+    /// Verification hook: delete every row and the in-memory cache.
+    pub fn verif_wipe(&mut self) {
+        let keys: Vec<Box<[u8]>> = self
+            .db
+            .full_iterator(rocksdb::IteratorMode::Start)
+            .map(|kv| kv.expect("iter").0)
+            .collect();
+        for k in keys {
+            self.db.delete(&k).expect("delete");
+        }
+        self.cache.clear();
+    }
+
+    /// Verification hook: read-only dump of the complete representation.
+    pub fn verif_dump(&self, name: &'static str) -> crate::verif::VerifTableDump {
+        let mut cache: Vec<crate::verif::VerifCacheRow> = self
+            .cache
+            .iter()
+            .map(|(k, v)| crate::verif::VerifCacheRow {
+                key: k.encode_vec(),
+                history: Vec::new(),
+                latest: Some(v.encode_vec()),
+            })
+            .collect();
+        cache.sort_by(|a, b| a.key.cmp(&b.key));
+        crate::verif::VerifTableDump {
+            name,
+            db: self
+                .db
+                .full_iterator(rocksdb::IteratorMode::Start)
+                .map(|kv| {
+                    let (k, v) = kv.expect("iter");
+                    (k.to_vec(), v.to_vec())
+                })
+                .collect(),
+            cache_db: Vec::new(),
+            cache,
+        }
+    }
+}
